@@ -215,6 +215,60 @@ def reference_variants(rnd, b):
     return out
 
 
+def hash_prefix_probe(chk, w2c2, root):
+    """-r decides 'static' by comparing SHA-1 digests of the bodies. A comparison that looks at fewer than all 20 bytes only shows on
+    bodies whose digests share a prefix: pairs of DIFFERENT bodies with equal 4-byte (quick: a few, birthday search over ~4*10^5
+    candidate bodies) digest prefixes are constructed; module = one side of each pair, reference = the other side (plus one body that
+    really is identical). Only the identical body may be classified static."""
+    import hashlib
+    seen = {}
+    pairs = []
+    want = 6
+    for n in range(1, 600000):
+        body = b'\x00\x41' + wasm.sleb(n, 0) + b'\x0b'
+        k4 = hashlib.sha1(body).digest()[:4]
+        if k4 in seen and seen[k4] != body:
+            pairs.append((seen[k4], body))
+            if len(pairs) >= want:
+                break
+        else:
+            seen[k4] = body
+    if len(pairs) < 2:
+        chk.log('note: no digest-prefix collisions found; hash-prefix probe skipped')
+        return
+    common = b'\x00\x41\x2a\x0b'
+    def mod(bodies):
+        m = Module()
+        t = m.add_type([], [I32])
+        for raw in bodies:
+            m.funcs.append(wasm.Func(t, raw=raw))
+        m.exports.append(('f0', 'func', 0))
+        return m.encode()
+    mb = mod([a for a, _ in pairs] + [common])
+    rb = mod([b for _, b in pairs] + [common])
+    d = os.path.join(root, 'hashprefix')
+    os.makedirs(d, exist_ok=True)
+    mp, rp = os.path.join(d, 'hp.wasm'), os.path.join(d, 'hpref.wasm')
+    open(mp, 'wb').write(mb)
+    open(rp, 'wb').write(rb)
+    nf = len(pairs) + 1
+    for opts in (['-r', rp, '-f', '1'], ['-r', rp, '-f', '2', '-t', '2'], ['-r', rp, '-f', '1', '-p', '-m']):
+        r, files = run_variant(w2c2, mp, os.path.join(d, 'o'), opts)
+        chk.ev()
+        chk.distinct(('hash-prefix', tuple(o for o in opts if o.startswith('-'))))
+        if r.rc != 0:
+            chk.violation('C09:exit:%s:-r' % r.rc, 'translator failed on the digest-prefix module: %s' % r.err[-300:], {'module.wasm': mb, 'reference.wasm': rb})
+            continue
+        funcs, dups, where = all_functions(files)
+        static = sorted(funcs[n][0] for n, fn in where.items() if fn.startswith('s') and PATTERN_IMPL.match(fn))
+        bad = [i for i in static if i != nf - 1]
+        if bad:
+            chk.violation('C09:static-not-in-reference:digest-prefix', 'functions %s are classified static although the reference only holds DIFFERENT bodies whose SHA-1 digests share their first 4 bytes (options %s)' % (
+                bad, ' '.join(o for o in opts if not o.startswith('/'))), {'module.wasm': mb, 'reference.wasm': rb})
+    chk.observe('digest_prefix_pairs', len(pairs), 'set')
+    shutil.rmtree(d, ignore_errors=True)
+
+
 def debug_name_probes(chk, w2c2, root):
     """Separately keyed probes (Appendix A) for -g with name sections whose names interact with other symbols or with the
     assembler. Each case is a valid module; with and without -g (and with -m / -f) the output must compile with gcc and clang and
@@ -527,6 +581,7 @@ def main(chk):
     shutil.rmtree(pd, ignore_errors=True)
 
     debug_name_probes(chk, w2c2, root)
+    hash_prefix_probe(chk, w2c2, root)
 
     # ---- h: TSan translator with yields at the hand-off points
     tsan = env.build_translator('tsan', guard=True)
